@@ -169,8 +169,9 @@ main(void)
             free(name);
             free(s);
         } else if (!strcmp(comp, "ymod") && (c.nf >= 3)) {
-            /* ymod <0: module description | 1: units of a typedef | 2: presence of a container; +4: s is written
-             * single-quoted and verbatim instead of double-quoted and escaped> <hex s>
+            /* ymod <0: module description | 1: units of a typedef | 2: presence of a container | 3: default of a string
+             * leaf (printed single-quoted when it was read single-quoted); +4: s is written single-quoted and
+             * verbatim instead of double-quoted and escaped> <hex s>
              * API-level round trip: a module holding the statement with argument s (written with every special
              * character escaped, so that the first parse yields s) is parsed, printed as YANG, the output parsed
              * in a fresh context and printed again.
@@ -217,11 +218,14 @@ main(void)
                 asprintf(&data, "module y {namespace \"urn:y\"; prefix y; typedef t {type string; units %s;}}", qt);
             } else if (which == 2) {
                 asprintf(&data, "module y {namespace \"urn:y\"; prefix y; container t {presence %s;}}", qt);
+            } else if (which == 3) {
+                asprintf(&data, "module y {namespace \"urn:y\"; prefix y; leaf t {type string; default %s;}}", qt);
             } else {
                 asprintf(&data, "module y {namespace \"urn:y\"; prefix y; description %s;}", qt);
             }
 #define YMOD_VAL(M) ((which == 1) ? (M)->parsed->typedefs[0].units : (which == 2) ? \
-        ((struct lysp_node_container *)(M)->parsed->data)->presence : (M)->dsc)
+        ((struct lysp_node_container *)(M)->parsed->data)->presence : (which == 3) ? \
+        ((struct lysp_node_leaf *)(M)->parsed->data)->dflt.str : (M)->dsc)
             ly_ctx_new(NULL, 0, &c1);
             ly_ctx_new(NULL, 0, &c2);
             if (lys_parse_mem(c1, data, LYS_IN_YANG, &m1)) {
